@@ -14,6 +14,7 @@ import (
 var errFlowDescAbsent = errors.New("flow description not present")
 var errDatapathDown = errors.New("datapath down")
 var errReqRejected = errors.New("request rejected")
+var errMandatoryIEMissing = errors.New("mandatory IE missing")
 
 func (pConn *PFCPConn) sendAssociationRequest() {
 	// Build request message
@@ -133,6 +134,10 @@ func (pConn *PFCPConn) handleAssociationSetupRequest(msg message.Message) (messa
 	asreq, ok := msg.(*message.AssociationSetupRequest)
 	if !ok {
 		return nil, errUnmarshal(errMsgUnexpectedType)
+	}
+
+	if asreq.NodeID == nil || asreq.RecoveryTimeStamp == nil {
+		return nil, errUnmarshal(errMandatoryIEMissing)
 	}
 
 	nodeID, err := asreq.NodeID.NodeID()
